@@ -6,7 +6,10 @@ HERE="$(cd "$(dirname "$0")" && pwd)"
 "$HERE/bin/setup"
 for spec in "$@"; do
   d=${spec%%:*}; pids=${spec##*:}
-  name=$(echo "$d" | sed 's#/tmp/mut[0-9]*/##; s#/out/#_#; s#/#_#g')
+  case "$d" in
+    *seeded/*) name=$(basename "$d") ;;
+    *) name=$(echo "$d" | sed 's#/tmp/mut[0-9]*/##; s#/out/#_#; s#/#_#g') ;;
+  esac
   /venv/bin/python "$HERE/tools_evalmut.py" "$d" ${pids//,/ } > "$OUT/$name.json" 2>&1
   /venv/bin/python - "$OUT/$name.json" <<'PY'
 import json,sys
